@@ -17,14 +17,14 @@ structure DState where
   creds : List String
 
 def vals (c : Counters) : String :=
-  ",".intercalate (Field.all.map (fun f => toString (c f)))
+  ",".intercalate (Field.all.map (fun f => toString (c.get f)))
 
 def insStr (e : String × Nat) : List (String × Nat) → List (String × Nat)
   | [] => [e]
   | x :: xs => if e.1 < x.1 then e :: x :: xs else x :: insStr e xs
 
 def jsonPairs (c : Counters) : String :=
-  let ps := (Field.all.map (fun f => (f.jsonName, c f))).foldr insStr []
+  let ps := (Field.all.map (fun f => (f.jsonName, c.get f))).foldr insStr []
   ",".intercalate (ps.map (fun p => s!"{p.1}={p.2}"))
 
 def showResult (r : Result) : String :=
@@ -34,17 +34,15 @@ def showStats (r : Result) : String :=
   "200 " ++ jsonPairs r.total ++ s!" {usersJSONName}=[" ++
     ";".intercalate (r.users.map (fun e => s!"{usernameJSONName}={e.1},{jsonPairs e.2}")) ++ "]"
 
-abbrev Table := List (Target × List (Field × Nat))
+abbrev Table := List (Target × Counters)
 
-@[noinline] def ofTable (tab : Table) : Store := fun t f =>
+@[noinline] def ofTable (tab : Table) : Store := fun t =>
   match tab.find? (fun e => e.1 == t) with
-  | some e => match e.2.find? (fun p => p.1 == f) with
-    | some p => p.2
-    | none => 0
-  | none => 0
+  | some e => e.2
+  | none => Counters.zero
 
 @[noinline] def tabulate (sh : Shared) : Table :=
-  (Target.anon :: sh.names.map Target.user).map (fun t => (t, Field.all.map (fun f => (f, sh.ctr t f))))
+  (Target.anon :: sh.names.map Target.user).map (fun t => (t, ⟨Field.all.map (fun f => (f, (sh.ctr t).get f))⟩))
 
 /-- rebuild the store as a table look-up (keeps the closure chain short in long scripts) -/
 def compact (sh : Shared) : Shared := { sh with ctr := ofTable (tabulate sh) }
